@@ -54,7 +54,14 @@ def build(rnd):
     if not derived_if and rnd.random() < 0.6:
         del derived_ns['dbusInterfaces']
     Base = type('PBase', (objects.DBusObject,), base_ns)
-    Derived = type('PDerived', (Base,), derived_ns)
+    if derived_if and rnd.random() < 0.35:
+        # multiple inheritance: the interfaces (and their bindings) come from TWO base classes, each a DBusObject of its own
+        Side = type('PSide', (objects.DBusObject,), derived_ns)
+        if rnd.random() < 0.5:
+            Side('/org/verif/SideAlone')            # an object of the second base class alone existed before
+        Derived = type('PDerived', (Base, Side), {})
+    else:
+        Derived = type('PDerived', (Base,), derived_ns)
     if rnd.random() < 0.4:
         Derived = type('PLeaf', (Derived,), {})                # a further subclass that declares nothing
     conn = Conn()
